@@ -128,4 +128,108 @@ theorem property_keeps_pose (reg : Registry) (e : Entity) (idx : Nat) (bs : Byte
 example : poseOf (setPose { id := 1, view := default } ⟨[1, 2, 3], 4, 5, 6⟩) "yaw" = some (.f32 4) :=
   (setPose_reads _ _).2.1
 
+/-! ### updates and poses over whole histories -/
+
+/-- the poses a packet list sends to entity `id`, in stream order -/
+def posesTo (id : Nat) : List Packet → List Pose
+  | [] => []
+  | .position id' pose :: ps => if id' = (id : Int) then pose :: posesTo id ps else posesTo id ps
+  | _ :: ps => posesTo id ps
+
+theorem posesTo_other (id : Nat) (p : Packet) (ps : List Packet)
+    (h : C05.target p ≠ some (id : Int)) : posesTo id (p :: ps) = posesTo id ps := by
+  cases p <;> simp only [posesTo]
+  rename_i id' pose
+  have : id' ≠ (id : Int) := by
+    intro hc; apply h; simp [C05.target, hc]
+  simp [this]
+
+theorem step_position_eq (cfg : Config) (hg : cfg.dialect.game ≠ .wowp) (w : World) (id : Int) (pose : Pose) :
+    step cfg w (.position id pose) = stepPosition w id pose := by
+  unfold step
+  cases hgame : cfg.dialect.game <;> simp_all
+
+theorem writesTo_position (view : EntityView) (id : Nat) (i : Int) (pose : Pose) (ps : List Packet) :
+    C05.writesTo view id (.position i pose :: ps) = C05.writesTo view id ps := rfl
+
+theorem posesTo_property (id id' idx : Nat) (data : Bytes) (ps : List Packet) :
+    posesTo id (.entityProperty id' idx data :: ps) = posesTo id ps := rfl
+
+theorem setPose_view (e : Entity) (p : Pose) : (setPose e p).view = e.view := rfl
+
+theorem setClientProperty_volatile (reg : Registry) (e : Entity) (idx : Nat) (bs : Bytes) :
+    (setClientProperty reg e idx bs).1.volatile = e.volatile := property_keeps_pose reg e idx bs
+
+/-- **An entity's state after any history of updates and positions.** The packets
+addressed to `id` are property updates and position packets, in any interleaving, among
+arbitrary packets for other entities: the client bucket is the initial one with the
+successful updates applied in order, the pose is the initial one overwritten by the
+position packets in order (so it is the last packet's pose, `setPose_reads`), and the
+two never disturb each other. -/
+theorem entity_history (cfg : Config) (hg : cfg.dialect.game ≠ .wowp) (id : Nat) :
+    ∀ (ps : List Packet) (w : World) (e : Entity), w.WF → w.get? (id : Int) = some e →
+      (∀ p ∈ ps, C05.target p = some (id : Int) →
+        (∃ idx data, p = .entityProperty id idx data) ∨ (∃ pose, p = .position (id : Int) pose)) →
+      ∃ e', (C05.runAll cfg w ps).get? (id : Int) = some e' ∧ e'.view = e.view ∧ e'.id = e.id ∧
+        e'.client = C05.applyWrites e.client (C05.writesTo e.view id ps) ∧
+        e'.volatile = ((posesTo id ps).foldl setPose e).volatile ∧
+        e'.cell = e.cell ∧ e'.base = e.base := by
+  intro ps
+  induction ps with
+  | nil => intro w e _ hget _; exact ⟨e, hget, rfl, rfl, rfl, rfl, rfl, rfl⟩
+  | cons p ps ih =>
+    intro w e hwf hget hps
+    have hwf' : (step cfg w p).world.WF := C05.step_wf cfg w p hwf
+    have hps' : ∀ q ∈ ps, C05.target q = some (id : Int) →
+        (∃ idx data, q = .entityProperty id idx data) ∨ (∃ pose, q = .position (id : Int) pose) :=
+      fun q hq => hps q (List.mem_cons_of_mem _ hq)
+    show ∃ e', (C05.runAll cfg (step cfg w p).world ps).get? (id : Int) = some e' ∧ _
+    -- the pose fold only depends on the volatile bucket of its start
+    have fold_vol : ∀ (qs : List Pose) (a b : Entity), a.volatile = b.volatile →
+        (qs.foldl setPose a).volatile = (qs.foldl setPose b).volatile := by
+      intro qs
+      induction qs with
+      | nil => intro a b h; exact h
+      | cons q qs ihq =>
+        intro a b h
+        apply ihq
+        show (a.withVol _).volatile = (b.withVol _).volatile
+        simp only [withVol_cons, withVol_nil, h]
+    by_cases ht : C05.target p = some (id : Int)
+    · rcases hps p (List.mem_cons_self ..) ht with ⟨idx, data, rfl⟩ | ⟨pose, rfl⟩
+      · rw [C05.step_entityProperty_eq cfg hg] at hwf' ⊢
+        have hg1 := C05.stepEntityProperty_get cfg w id idx data e hwf hget
+        have hvol := setClientProperty_volatile cfg.reg e idx data
+        rw [C05.setClientProperty_entity] at hg1 hvol
+        cases hw : C05.propWrite e.view idx data with
+        | none =>
+          rw [hw] at hg1
+          obtain ⟨e', h1, h2, h3, h4, h5, h6, h7⟩ := ih _ e hwf' hg1 hps'
+          refine ⟨e', h1, h2, h3, ?_, ?_, h6, h7⟩
+          · rw [h4]; simp [C05.writesTo, hw]
+          · rw [h5, posesTo_property]
+        | some kv =>
+          rw [hw] at hg1
+          obtain ⟨e', h1, h2, h3, h4, h5, h6, h7⟩ := ih _ _ hwf' hg1 hps'
+          refine ⟨e', h1, h2, h3, ?_, ?_, h6, h7⟩
+          · rw [h4]
+            simp only [C05.writesTo, if_true, hw, Option.toList_some]
+            rw [C05.applyWrites_append]
+            rfl
+          · rw [h5, posesTo_property]
+            exact fold_vol _ _ _ rfl
+      · rw [step_position_eq cfg hg] at hwf' ⊢
+        have hg1 := ((position_spec w (id : Int) pose hwf).1 e hget).2
+        obtain ⟨e', h1, h2, h3, h4, h5, h6, h7⟩ := ih _ _ hwf' hg1 hps'
+        refine ⟨e', h1, h2, h3, ?_, ?_, h6, h7⟩
+        · rw [h4, writesTo_position]; rfl
+        · rw [h5]; simp [posesTo]
+    · have hfr : (step cfg w p).world.get? (id : Int) = some e := by
+        rw [C05.step_frame cfg w p hwf (id : Int) (fun i hi hc => ht (hc ▸ hi))]
+        exact hget
+      obtain ⟨e', h1, h2, h3, h4, h5, h6, h7⟩ := ih _ e hwf' hfr hps'
+      refine ⟨e', h1, h2, h3, ?_, ?_, h6, h7⟩
+      · rw [h4, C05.writesTo_other e.view id p ps ht]
+      · rw [h5, posesTo_other id p ps ht]
+
 end ReplayModel.C08
